@@ -366,7 +366,7 @@ class Change(_NoReplay):
 # C12 — resampling
 
 
-@contract("genjax.inference.smc:resample", ["C12", "C10"])
+@contract("genjax.inference.smc:resample", ["C12", "C10", "C05"])
 class Resample(_NoReplay):
     def replay(self, case, clause, model, path):
         from .native import run_native
